@@ -32,6 +32,7 @@ type Job struct {
 	Replay    string   `json:"replay"`
 	KeepSteps bool     `json:"keep_steps"`
 	Seeds     []uint64 `json:"seeds"`
+	KnownKeys []string `json:"known_keys"`
 }
 
 func runSeed(base uint64, property string, k int) uint64 {
@@ -82,7 +83,7 @@ func TestWorker(t *testing.T) {
 			}
 			seed := runSeed(job.BaseSeed, job.Property, k)
 			emit(map[string]interface{}{"starting": seed})
-			res := runOne(t, &runSpec{Property: job.Property, Seed: seed, Thorough: job.Thorough, KeepSteps: job.KeepSteps || k < 2})
+			res := runOne(t, &runSpec{Property: job.Property, Seed: seed, Thorough: job.Thorough, KeepSteps: job.KeepSteps || k < 2, KnownKeys: job.KnownKeys})
 			emit(res)
 			n++
 			if res.Error != "" {
@@ -91,7 +92,7 @@ func TestWorker(t *testing.T) {
 		}
 	case "seeds":
 		for _, seed := range job.Seeds {
-			res := runOne(t, &runSpec{Property: job.Property, Seed: seed, Thorough: job.Thorough, KeepSteps: job.KeepSteps, TracePer: true})
+			res := runOne(t, &runSpec{Property: job.Property, Seed: seed, Thorough: job.Thorough, KeepSteps: job.KeepSteps, TracePer: true, KnownKeys: job.KnownKeys})
 			emit(res)
 		}
 	case "replay":
